@@ -4,10 +4,19 @@ from .tlc import run_tlc, OUT, SPEC, MachineryError
 
 
 def write_cfg(name, lines):
-    path = os.path.join(SPEC, "gen_" + name + ".cfg")
+    """generated TLC configuration; the file name carries the process id (checks may run side by side) and the file is removed at exit"""
+    import atexit
+    suffix = "-%d" % os.getpid()
+    path = os.path.join(SPEC, "gen_" + name + ("" if name.endswith(suffix) else suffix) + ".cfg")
     with open(path, "w") as f:
         f.write("\n".join(lines) + "\n")
+    if path not in _GENERATED:
+        _GENERATED.add(path)
+        atexit.register(lambda p=path: os.path.exists(p) and os.remove(p))
     return os.path.basename(path)
+
+
+_GENERATED = set()
 
 
 def validate(module, cfg_lines, traces, tag, *, invariants=(), properties=(), timeout=1800, env=None,
